@@ -209,6 +209,12 @@ func (in *Interp) pkgExecuted(path string) bool {
 	return stdAllowed[path]
 }
 
+// fnAllowed: individual pure functions of packages that are otherwise not executed.
+var fnAllowed = map[string]bool{
+	"(reflect.StructTag).Get": true, "(reflect.StructTag).Lookup": true,
+	"(encoding/json.Number).String": true, "(encoding/json.Number).Int64": true, "(encoding/json.Number).Float64": true,
+}
+
 var stdAllowed = map[string]bool{
 	"container/list": true, "container/heap": true, "container/ring": true, "sort": true, "slices": true, "path": true,
 	"bytes": true, "strings": true, "unicode/utf8": true, "unicode": true, "errors": true,
@@ -262,8 +268,12 @@ func (in *Interp) pkgInit(path string) bool {
 			return true
 		}
 	}
-	return false
+	return stdInit[path]
 }
+
+// stdInit: standard-library packages whose (cheap, pure) package initialisers
+// run for real so that their small lookup tables have their values.
+var stdInit = map[string]bool{"strings": true, "bytes": true, "strconv": true, "path": true, "sort": true}
 
 // poison marks an unmodelled foreign global; any use is inconclusive.
 type poison struct{ name string }
@@ -290,7 +300,7 @@ func (in *Interp) ensureInit(p *ssa.Package) {
 			return
 		}
 	}
-	p.Build() // packages other than the harness's are built lazily; without this the first path would skip their init
+	p.Build() // the package may not have been built yet (nothing called into it)
 	initFn := p.Func("init")
 	if initFn == nil || initFn.Blocks == nil {
 		return
@@ -452,7 +462,7 @@ func (in *Interp) callFunction(fn *ssa.Function, args []Value, bind []Value) Val
 	}
 	if fn.Synthetic == "" || fn.Pkg != nil {
 		pp := fnPkgPath(fn)
-		if pp != "" && !in.pkgExecuted(pp) {
+		if pp != "" && !in.pkgExecuted(pp) && !fnAllowed[name] {
 			if in.inInit > 0 {
 				return in.havocResult(fn, name)
 			}
@@ -944,6 +954,9 @@ func (in *Interp) prepareCall(fr *Frame, call *ssa.CallCommon) (FuncV, []Value) 
 }
 
 func (in *Interp) lookupMethod(iv Iface, m *types.Func) FuncV {
+	if iv.T == rtypeT {
+		return in.rtypeMethod(iv.V.(RType), m)
+	}
 	if _, isOpaque := iv.V.(Opaque); isOpaque || strings.HasPrefix(iv.T.String(), "opaque:") {
 		name := "(" + iv.T.String() + ")." + m.Name()
 		if target, ok := in.Cfg.Stubs[name]; ok {
